@@ -111,7 +111,9 @@ def run_download(prior, sum_mode, choices, data_script=None):
         path = d / 'out' / 'file.bin'
         if ENTRY['kind'] == 'download_test_file':
             path = d / 'cfg' / 'test_data' / 'file.bin'
-        path.parent.mkdir(parents=True)
+        if not (ENTRY['kind'] == 'download_test_file' and prior == 'absent'):
+            # (the wrapper, with no prior file, starts from a configuration directory that does not exist yet)
+            path.parent.mkdir(parents=True)
         if prior == 'good':
             path.write_bytes(GOOD)
         elif prior == 'corrupt':
